@@ -247,6 +247,12 @@ func main() {
 				run.Violation("C06:stress:"+cls+":"+sp.leg, r.Stall, r.Witness)
 			case r.Inconclusive != "":
 				run.Inconclusive(fmt.Sprintf("stress trial %d: %s", i, r.Inconclusive))
+			case r.RetryBad != "":
+				atomic.AddInt32(&established, 1)
+				run.Violation("C06:stress:retry-after-timeout-not-served:"+sp.leg, r.RetryBad, r.Witness)
+			case strings.Contains(r.Bad, "closed itself"):
+				atomic.AddInt32(&established, 1)
+				run.Violation("C06:stress:transport-closed-itself:"+sp.leg, r.Bad, r.Witness)
 			case r.Bad != "":
 				run.Add("stress_trials_with_a_correlation_failure_(see_C01)", 1)
 			default:
